@@ -68,7 +68,7 @@ def run_case(index, rng, tier):
     for v in r["violations"]:
         if v["cat"] in CATS:
             viol.append({"key": "C02/" + classify(v), "what": v["what"],
-                         "witness": {"v": v, "prog": summarize_prog(prog), "specs": r["specs"], "relay": relay,
+                         "witness": {"v": v, "prog": summarize_prog(prog), "specs": r["specs"], "tsn_origins": r.get("origins"), "relay": relay,
                                      "events_tail": r["events_tail"][-25:]}})
     inconclusive = None
     if r["drain"] == "slow" or r.get("drain2") == "slow":
